@@ -72,7 +72,7 @@ CHECKS.update({
    tech=TECH + 'symbolic differentiation of the forward map as the specification; finite-difference run-time contracts as bounded stand-in'),
  'C10': dict(level='other', ref='DESIGN.md §7 C10',
    text='Proved: reproducibility as a static effect system over the AST of the real functions (every seed-accepting API in scope): one obligation per call site / global-generator access - callee seed parameters (resolved with inspect.signature on the imported objects) receive a value derived from the seed, '
-        'no derived generator is bound to a non-seed parameter, no global numpy/python/torch generator is touched. A static failure is replayed dynamically (same seed, perturbed global generators; a directed search over 512 seeds with a sentinel on the global generators); an unguarded global draw without a found input is reported as a violation without input. Also proved - validity for EVERY draw of the generators that are algebraic in their draws (get_numpy_rng replaced by a symbolic generator returning fresh real symbols): rand_haar_state unit norm, rand_density_matrix(haar) Hermitian / trace one / Gram form of rank <= k, rand_hermitian_matrix, rand_n_sphere, rand_n_ball (|x|^2 = u^(2/d)), rand_bipartite_state(k=None) incl. return_dm = projector of the ket, rand_separable_dm = normalised non-negative weights times products of the local states on the advertised split. Bounded: membership of every generator output in the advertised set over its option lattice, and a dynamic same-seed echo with perturbed global generators.',
+        'no derived generator is bound to a non-seed parameter, no global numpy/python/torch generator is touched. A static failure is replayed dynamically (same seed, perturbed global generators; a directed search over 512 seeds with a sentinel on the global generators); an unguarded global draw without a found input is reported as a violation without input. Also proved - validity for EVERY draw of the generators that are algebraic in their draws (get_numpy_rng replaced by a symbolic generator returning fresh real symbols): rand_haar_state unit norm, rand_density_matrix(haar) Hermitian / trace one / Gram form of rank <= k, rand_hermitian_matrix, rand_n_sphere, rand_n_ball (|x|^2 = u^(2/d)), rand_bipartite_state(k=None) incl. return_dm = projector of the ket, rand_separable_dm = normalised non-negative weights times products of the local states on the advertised split, rand_adjacent_matrix symmetric with zero diagonal and drawn bits as entries (generator.integers as fresh integer symbols), rand_ABk_density_matrix Hermitian / unit trace / invariant under every permutation of the B copies / equal to the average over copy permutations of G G^dagger / tr (hence PSD), (dimA,dimB,k) = (2,2,1), (1,2,2) ((2,2,2), (1,2,3) thorough); rand_povm / rand_choi_op / rand_kraus_op with numpy.linalg.eigh replaced by a recorder for its assumed contract (fixed rational spectrum, fully symbolic eigenvector matrix): the operand handed to eigh (sum of Gram matrices / partial trace over the output / sum of Z^dagger Z), the Gram form of every returned operator (hence PSD, rank <= rank) and the completeness sum S op S, which is the identity exactly when eigh keeps its contract; a clause phrased through the normalisation that fails symbolically is decided by 64 native seeds (valid everywhere -> undecided, else replayed violation). Bounded: membership of every generator output in the advertised set over its option lattice, and a dynamic same-seed echo with perturbed global generators.',
    note='Trusted: the effect rules of vf/effects.py, determinism of numpy.random.Generator/random.Random/scipy given their state, Python name binding. Validity of the generated objects needs floating-point linear algebra and is bounded.' + BOUNDED_NOTE,
    tech='contract-based deductive verification: effect contracts (Det(seed)) checked per call site over the AST of the real source with signature resolution on the imported objects; dynamic replay of failures; run-time validity contracts as bounded stand-in'),
  'C15': dict(level='other', ref='DESIGN.md §7 C15',
